@@ -65,7 +65,9 @@ func initWaitGroup() {
 		"start",
 		func(_ *Thread, args []value.Value) (value.Value, value.Value) {
 			self := (*value.WaitGroup)(args[0].Pointer())
-			self.Start()
+			if err := self.Start(); !err.IsUndefined() {
+				return value.Undefined, err
+			}
 			return value.Nil, value.Undefined
 		},
 	)
